@@ -968,7 +968,7 @@ def verifyParams (g : Graph) (op : OpDef) : Except String Unit := do
     let si ← g.scale1 (inId op 0)
     let so ← g.scale1 o
     expectEq "LEAKY_RELU identity multiplier" (some (pI op 0 0, pI op 0 1)) (qmRatioFloat si so)
-    expectEq "LEAKY_RELU alpha multiplier" (some (pI op 0 2, pI op 0 3)) (qmMulFloat si (pN op 0 4) so)
+    expectEq "LEAKY_RELU alpha multiplier" (some (pI op 0 2, pI op 0 3)) (qmMulFloatSigned si (pN op 0 4) so)
   | _ => pure ()
 
 /-- run a graph; `custom` evaluates the operators the reference does not own (the Ethos-U operator of an
